@@ -22,7 +22,7 @@ from .c17_model import NODE
 
 KFW = "ufo2ft.featureWriters.kernFeatureWriter:KernFeatureWriter"
 LKS = List(Ref(NODE))
-CALL = Named("c20_Call", script=STR, lookups=LKS, languages=List(STR), loop=BOOL, src=STR, at=INT)
+CALL = Named("c20_Call", script=STR, lookups=LKS, languages=List(STR), loop=BOOL, src=STR, at=INT, ti=INT)
 CLASSES["c20_Block"].fields["calls"] = List(CALL)
 
 
@@ -32,6 +32,15 @@ def c20_direction(script):
     from ufo2ft.featureWriters.kernFeatureWriter import script_direction
 
     return script_direction(script)
+
+
+@specfn(Set(STR), opaque=True)
+def c20_dist_scripts():
+    """kernFeatureWriter.DIST_ENABLED_SCRIPTS (a module constant: ~90 script codes).  Opaque in the logic: the contract is proved for ANY value of that
+    constant, which keeps the 90-element literal out of every term"""
+    from ufo2ft.featureWriters.kernFeatureWriter import DIST_ENABLED_SCRIPTS
+
+    return set(DIST_ENABLED_SCRIPTS)
 
 
 @specfn(List(STR), opaque=True, script=STR)
@@ -65,9 +74,19 @@ def _alr_glue(ex, st, args, kwargs, node):
     src = st.env.get("script") if in_loop is not None and in_loop.is_py and in_loop.py is True else None
     # the list value the contract was called with (a dict view has been turned into a list by the engine)
     lv = lks if isinstance(lks.ty, T.List) else ex.apply(Val.obj(FuncRef(list, "builtins.list")), [lks], {}, st, node)
-    rec = CALL.sort().mk(lift(script, STR), lift(lv, LKS), lift(langs, List(STR)), z3.BoolVal(src is not None), lift(src, STR) if src is not None else z3.StringVal(""), at)
+    rec = CALL.sort().mk(lift(script, STR), lift(lv, LKS), lift(langs, List(STR)), z3.BoolVal(src is not None), lift(src, STR) if src is not None else z3.StringVal(""), at,
+                         lift(st.env["t"], INT) if src is not None and st.env.get("t") is not None else z3.IntVal(0))
     cur = ex.read_field(st, feature, "calls")
-    ex.write_field(st, feature, "calls", Val(cur.ty, z3.Concat(lift(cur), z3.Unit(rec))), node)
+    new = z3.Concat(lift(cur), z3.Unit(rec))
+    k = z3.Int(fresh_name("c20_k"))  # position-wise consequences of new == cur ++ [rec] (valid facts)
+    st.assume(z3.Length(new) == z3.Length(lift(cur)) + 1)
+    st.assume(new[z3.Length(lift(cur))] == rec)
+    body = z3.Implies(z3.And(k >= 0, k < z3.Length(lift(cur))), new[k] == lift(cur)[k])
+    try:
+        st.assume(z3.ForAll([k], body, patterns=[new[k]]))
+    except z3.Z3Exception:  # the term cannot serve as a trigger (z3 simplified it to an ite)
+        st.assume(z3.ForAll([k], body))
+    ex.write_field(st, feature, "calls", Val(cur.ty, new), node)
     return r
 
 
@@ -76,7 +95,7 @@ _alr_glue.modifies = ["c20_Block.calls", "c20_Block.statements"]
 def _tags_model(ex, st, args, kwargs, node):
     r = ex.apply_spec(SPECFNS["c20_ot_tags"], [args[0]], st, node)
     i = z3.Int(fresh_name("c20_ti"))
-    st.assume(z3.ForAll([i], z3.Implies(z3.And(i >= 0, i < z3.Length(lift(r))), z3.Length(lift(r)[i]) == 4), patterns=[lift(r)[i]]))  # OpenType tags have four characters
+    st.assume(z3.ForAll([i], z3.Implies(z3.And(i >= 0, i < z3.Length(lift(r))), z3.Length(lift(r)[i]) == 4)))  # OpenType tags have four characters
     return r
 
 
@@ -94,34 +113,35 @@ _CALLS = "feature.calls"
 _IS_KERN = "(feature.name == 'kern')"
 
 
-def _call_ok(cq):
-    return (f"ite({cq}.loop, {cq}.src in lookups and {cq}.src != 'Zyyy' and {cq}.src != 'Zinh' and iff({_IS_KERN}, {cq}.src not in DIST_ENABLED_SCRIPTS) and {cq}.script in c20_ot_tags({cq}.src),"
-            f" {cq}.script == 'DFLT' and {_IS_KERN})")
+def _call_parts(cq):
+    return {
+        "dflt-call-only-for-kern": f"implies(not {cq}.loop, {cq}.script == 'DFLT' and {_IS_KERN})",
+        "script-is-kerned": f"implies({cq}.loop, {cq}.src in lookups and {cq}.src != 'Zyyy' and {cq}.src != 'Zinh')",
+        "kern-or-dist-script": f"implies({cq}.loop, iff({_IS_KERN}, {cq}.src not in c20_dist_scripts()))",
+        "tag-of-that-script": f"implies({cq}.loop, 0 <= {cq}.ti and {cq}.ti < len(c20_ot_tags({cq}.src)) and c20_ot_tags({cq}.src)[{cq}.ti] == {cq}.script)",
+    }
 
 
 _LANGS = "{cq}.languages == (feaLanguagesByScript[{cq}.script] if {cq}.script in feaLanguagesByScript else ['dflt'])"
 
 _FRAME = "all(x.statements == old(x.statements) and x.calls == old(x.calls) for x in feature.others)"
 _INV = {
-    "ok": f"all({_call_ok(_CALLS + '[q]')} for q in range(len({_CALLS})))",
+    **{nm: f"all({cl} for q in range(len({_CALLS})))" for nm, cl in _call_parts(_CALLS + "[q]").items()},
     "langs": "all(" + _LANGS.format(cq=_CALLS + "[q]") + f" for q in range(len({_CALLS})))",
     "frame": _FRAME,
 }
 
-contract(
+def reg_variant(name, kern, props, extra_requires=()):
+  return contract(
     KFW + "._registerLookups",
-    name="trace",
-    # NOT REGISTERED (props=[]): round-3 draft.  With the engine of 2026-10-02 20:00 the whole function executes symbolically (the lazy
-    # `extend(g for g in .. if g not in xs)`, dict views, set algebra on keys, sorted(items)), and 189 of its 268 obligations are discharged; the
-    # call-site preconditions of addLookupReferences (`len(script) > 0`, `len(lookups) > 0` for the merged dict's values) and the invariant steps
-    # of the inner loop time out on 24 unmerged paths (15 min per run), so it is not part of `./check C20`.  See notes/C20.md.
-    props=[],
+    name=name,
+    props=props,
     params={"feature": Ref("c20_Block"), "lookups": Dict(STR, Dict(STR, Ref(NODE))), "feaLanguagesByScript": Dict(STR, List(STR))},
     globals={"ast": Val.obj(_AST), "script_direction": Val.obj(FuncRef(None, "c20.script_direction")), "unicodedata": Val.obj(_UD),
-             "DIST_ENABLED_SCRIPTS": __import__("ufo2ft.featureWriters.kernFeatureWriter", fromlist=["x"]).DIST_ENABLED_SCRIPTS},
-    requires=["len(feature.calls) == 0", "all(len(lookups[s]) > 0 for s in lookups)", "all(len(t) > 0 for s in lookups for t in c20_ot_tags(s))" if False else "True"],
+             "DIST_ENABLED_SCRIPTS": Val(Set(STR), z3.Const("spec_c20_dist_scripts", Set(STR).sort()))},
+    requires=["len(feature.calls) == 0", ("feature.name == 'kern'" if kern else "feature.name != 'kern'"), "all(any(True for k in lookups[s]) for s in lookups)", *extra_requires, "all(len(t) > 0 for s in lookups for t in c20_ot_tags(s))" if False else "True"],
     ensures={
-        "every-registration-is-for-a-kerned-script": f"all({_call_ok(_CALLS + '[q]')} for q in range(len({_CALLS})))",
+        **{nm: f"all({cl} for q in range(len({_CALLS})))" for nm, cl in _call_parts(_CALLS + "[q]").items()},
         "with-exactly-the-declared-languages": "all(" + _LANGS.format(cq=_CALLS + "[q]") + f" for q in range(len({_CALLS})))",
     },
     canaries={"no-call": f"len({_CALLS}) == 0"},
@@ -134,7 +154,72 @@ contract(
         "for dfltScript in DFLT_SCRIPTS": Loop(unroll=True),
     },
     merge_branches=False,
+    dict_key_positions=False,  # the key-position Skolem fact of the merged dict derails the solvers on the loop steps
+    hints={"lookupsForThisScript.update(lookups[script])": ["all(k in lookupsForThisScript for k in lookups[script])", "len(lookupsForThisScript) > 0"]},
     ghost_vars={"g_loop": (BOOL, "False")},
-    ghost={"scriptsToReference = lookups.keys() - DIST_ENABLED_SCRIPTS": ["g_loop = True"],
-           "scriptsToReference = DIST_ENABLED_SCRIPTS.intersection(lookups.keys())": ["g_loop = True"]},
-)
+    ghost=({"scriptsToReference = lookups.keys() - DIST_ENABLED_SCRIPTS": ["g_loop = True"]} if kern else
+           {"scriptsToReference = DIST_ENABLED_SCRIPTS.intersection(lookups.keys())": ["g_loop = True"]}),
+  )
+
+
+reg_variant('dist', False, ['C20'])
+reg_variant('kern', True, ['C20'])
+
+
+# ---- run-time side: the real function with `ast.addLookupReferences` / `unicodedata.ot_tags_from_script` wrapped to record the trace -----------
+import collections as _collections
+
+_CallT = _collections.namedtuple("c20_Call", "script lookups languages loop src at ti")
+CLASSES["c20_Block"].views["calls"] = lambda o: list(getattr(o, "_c20_calls", []))
+
+
+def _reg_cases(kern):
+    def gen(rng, n):
+        scripts = ["Zyyy", "Zinh", "Latn", "Arab", "Grek", "Deva", "Telu", "Khmr"]
+        langmaps = [{}, {"latn": ["dflt", "TRK "], "arab": ["URD "]}, {"DFLT": ["dflt"], "latn": ["dflt"], "dev2": ["dflt", "MAR "], "deva": ["dflt"]}, {"khmr": ["dflt"], "tel2": ["TEL "]}]
+        out = []
+        for _ in range(max(n, 24)):
+            out.append({"scripts": {s: rng.randint(1, 2) for s in scripts if rng.random() < 0.45}, "langs": rng.choice(langmaps), "pre": rng.choice([0, 0, 2])})
+        return out
+
+    def build(d):
+        from fontTools.feaLib import ast as fa
+
+        f = fa.FeatureBlock("kern" if kern else "dist")
+        for k in range(d["pre"]):
+            f.statements.append(fa.Comment(f"# user {k}"))
+        f._c20_calls = []
+        lookups = {s: {f"kern_{s}_{i}": fa.LookupBlock(f"kern_{s}_{i}") for i in range(nl)} for s, nl in d["scripts"].items()}
+        return {"feature": f, "lookups": lookups, "feaLanguagesByScript": {k: list(v) for k, v in d["langs"].items()}}
+
+    def call(fn, a):
+        import fontTools.unicodedata as ud
+
+        from ufo2ft.featureWriters import ast as uast
+
+        feature = a["feature"]
+        state = {"src": None, "ti": 0, "loop": False}
+        real_alr, real_tags = uast.addLookupReferences, ud.ot_tags_from_script
+
+        def tags(script):
+            state.update(src=script, ti=0, loop=True)
+            return real_tags(script)
+
+        def alr(feat, lookups, script=None, languages=None, exclude_dflt=False):
+            lks = list(lookups)
+            at = len(feat.statements)
+            feat._c20_calls.append(_CallT(script, [M.P(x) for x in lks], list(languages), state["loop"], state["src"] or "", at, state["ti"] if state["loop"] else 0))
+            state["ti"] += 1
+            return real_alr(feat, lks, script, languages, exclude_dflt)
+
+        uast.addLookupReferences, ud.ot_tags_from_script = alr, tags
+        try:
+            return fn(feature, a["lookups"], a["feaLanguagesByScript"])
+        finally:
+            uast.addLookupReferences, ud.ot_tags_from_script = real_alr, real_tags
+
+    return Runtime(gen, build, call=call)
+
+
+CONTRACTS[KFW + "._registerLookups#kern"].runtime = _reg_cases(True)
+CONTRACTS[KFW + "._registerLookups#dist"].runtime = _reg_cases(False)
